@@ -55,3 +55,16 @@ Print Assumptions C06_gz_reader_header_fields.
 Theorem C06_zl_reader_sound : zl_sound_statement.
 Proof. exact zl_sound. Qed.
 Print Assumptions C06_zl_reader_sound.
+
+(* ---- both halves for the readers (proofs/GzEngineTop3.v): a container the specification accepts,
+   whose members' deflate streams are standard, read with sufficient positive-size Reads under any
+   chunking and buffer size (within the model's fuel bounds): NewReader succeeds, some Read returns
+   io.EOF and exactly the payload has been handed out.  (Multistream(true) needs a source that ends
+   with io.EOF: after the last member the Reader has to look for another one.) *)
+From Verif Require Import GzEngineSpec3 GzEngineSpec4 GzEngineTop3.
+Theorem C06_gz_reader_complete : gz_complete_bounded_statement.
+Proof. exact gz_complete_bounded. Qed.
+Print Assumptions C06_gz_reader_complete.
+Theorem C06_zl_reader_complete : zl_complete_bounded_statement.
+Proof. exact zl_complete_bounded. Qed.
+Print Assumptions C06_zl_reader_complete.
